@@ -8,7 +8,9 @@ EXPLANATION = ("Decides: (a) Index::compact refuses before touching anything —
                "consumes: every Schema field list read by the per-document segment build is also read by ensure_compact_safe "
                "(directly or through Schema::resolved_fields), so a field class whose data cannot be rebuilt from stored values "
                "cannot be silently dropped. Under the `vectors` feature vector_fields is consumed but not examined (known finding). "
-               "Equality of query results before/after compaction is not decided.")
+               "(c) the guard's per-field decision, extracted as a decision table over (kind, indexed, fast, stored) by path enumeration, "
+               "refuses every combination for which the segment build writes segment-only data (table W, anchored to the build's reads "
+               "of the flags) while stored is false. Equality of query results before/after compaction is not decided.")
 
 STREAM = "searchlite_core::index::segment::SegmentWriter::<'a>::write_segment_stream"
 SAFE = "searchlite_core::index::ensure_compact_safe"
